@@ -1,0 +1,159 @@
+//go:build verif
+
+package cmd
+
+import (
+	"context"
+	"fmt"
+	"net/url"
+	"slices"
+
+	"github.com/AdguardTeam/AdGuardDNS/internal/errcoll"
+	"github.com/AdguardTeam/AdGuardDNS/internal/filter/filterstorage"
+	"github.com/AdguardTeam/golibs/errors"
+	"github.com/AdguardTeam/golibs/logutil/slogutil"
+	"github.com/AdguardTeam/golibs/netutil/urlutil"
+	"github.com/prometheus/client_golang/prometheus"
+	"gopkg.in/yaml.v2"
+)
+
+// VerifC13Env is the part of the environment that configures the filters.
+// An empty URL disables the corresponding filter.
+type VerifC13Env struct {
+	FilterCachePath        string
+	FilterIndexURL         string
+	BlockedServiceIndexURL string
+	GeneralSafeSearchURL   string
+	YoutubeSafeSearchURL   string
+	AdultBlockingURL       string
+	SafeBrowsingURL        string
+	NewRegDomainsURL       string
+}
+
+// VerifC13Wired is the filter storage and the hash-prefix filters as the real
+// builder wires them from the configuration file and the environment.
+type VerifC13Wired struct {
+	b *builder
+}
+
+// verifC13URL converts s.
+func verifC13URL(s string) (u *urlutil.URL, on strictBool, err error) {
+	if s == "" {
+		return nil, false, nil
+	}
+
+	pu, err := url.Parse(s)
+	if err != nil {
+		return nil, false, err
+	}
+
+	return &urlutil.URL{URL: *pu}, true, nil
+}
+
+// VerifC13Build parses yamlConf the way [parseConfig] does, validates the
+// sections that configure the filters, and runs the same builder methods as
+// [Main] does for them, in the same order:  [builder.initHashPrefixFilters]
+// and [builder.initFilterStorage].  That includes the initial refreshes and
+// the start of the refresh workers.
+func VerifC13Build(
+	ctx context.Context,
+	yamlConf []byte,
+	e *VerifC13Env,
+	errColl errcoll.Interface,
+) (w *VerifC13Wired, err error) {
+	c := &configuration{}
+	err = yaml.Unmarshal(yamlConf, c)
+	if err != nil {
+		return nil, fmt.Errorf("parsing: %w", err)
+	}
+
+	err = errors.Join(c.Filters.validate(), c.AdultBlocking.validate(), c.SafeBrowsing.validate())
+	if err != nil {
+		return nil, fmt.Errorf("validating: %w", err)
+	}
+
+	envs := &environment{FilterCachePath: e.FilterCachePath}
+	var errs []error
+	set := func(s string, u **urlutil.URL, on *strictBool) {
+		var uerr error
+		*u, *on, uerr = verifC13URL(s)
+		errs = append(errs, uerr)
+	}
+
+	var idxOn strictBool
+	set(e.FilterIndexURL, &envs.FilterIndexURL, &idxOn)
+	set(e.BlockedServiceIndexURL, &envs.BlockedServiceIndexURL, &envs.BlockedServiceEnabled)
+	set(e.GeneralSafeSearchURL, &envs.GeneralSafeSearchURL, &envs.GeneralSafeSearchEnabled)
+	set(e.YoutubeSafeSearchURL, &envs.YoutubeSafeSearchURL, &envs.YoutubeSafeSearchEnabled)
+	set(e.AdultBlockingURL, &envs.AdultBlockingURL, &envs.AdultBlockingEnabled)
+	set(e.SafeBrowsingURL, &envs.SafeBrowsingURL, &envs.SafeBrowsingEnabled)
+	set(e.NewRegDomainsURL, &envs.NewRegDomainsURL, &envs.NewRegDomainsEnabled)
+	err = errors.Join(errs...)
+	if err != nil {
+		return nil, fmt.Errorf("urls: %w", err)
+	}
+
+	b := newBuilder(&builderConfig{
+		envs:       envs,
+		conf:       c,
+		baseLogger: slogutil.NewDiscardLogger(),
+		errColl:    errColl,
+	})
+	b.promRegisterer = prometheus.NewRegistry()
+
+	w = &VerifC13Wired{b: b}
+
+	err = b.initHashPrefixFilters(ctx)
+	if err != nil {
+		return w, err
+	}
+
+	err = b.initFilterStorage(ctx)
+	if err != nil {
+		return w, err
+	}
+
+	return w, nil
+}
+
+// VerifC13Storage returns the filter storage, if it has been created.
+func (w *VerifC13Wired) VerifC13Storage() (s *filterstorage.Default) {
+	return w.b.filterStorage
+}
+
+// VerifC13RefresherIDs returns the sorted IDs of the refreshers that the
+// builder has registered for the debug API.
+func (w *VerifC13Wired) VerifC13RefresherIDs() (ids []string) {
+	for id := range w.b.debugRefrs {
+		ids = append(ids, id)
+	}
+
+	slices.Sort(ids)
+
+	return ids
+}
+
+// VerifC13Refresh runs the registered refresher with the given ID.
+func (w *VerifC13Wired) VerifC13Refresh(ctx context.Context, id string) (err error) {
+	r, ok := w.b.debugRefrs[id]
+	if !ok {
+		return fmt.Errorf("no refresher %q", id)
+	}
+
+	return r.Refresh(ctx)
+}
+
+// VerifC13HashMatches returns true if the hash storage of the hash-prefix
+// filter with the given ID exists and matches host.
+func (w *VerifC13Wired) VerifC13HashMatches(id, host string) (ok bool) {
+	switch id {
+	case "adult_blocking":
+		return w.b.adultBlockingHashes != nil && w.b.adultBlockingHashes.Matches(host)
+	case "safe_browsing":
+		return w.b.safeBrowsingHashes != nil && w.b.safeBrowsingHashes.Matches(host)
+	case "newly_registered_domains":
+		return w.b.newRegDomainsHashes != nil && w.b.newRegDomainsHashes.Matches(host)
+	default:
+		return false
+	}
+}
